@@ -55,7 +55,7 @@ def comment_edits(split_span, split_arg, line_text):
         rep(A.text('&mut dyn Write'), '&mut WriteSink', tag='T7'),
         ins(A.ret(), '(r: ', where='before'), ins(A.ret(), ')', where='after'),
         ins(A.sig(), '''
-        ensures /*C15: every byte of the doc text lies inside a line comment*/
+        ensures /*C15 C10: every byte of the doc text lies inside a line comment, each comment line ends at its line feed*/
             r is Ok ==> exists|t: Seq<char>| #[trigger] commented(t) && final(w)@ == old(w)@ + t,
 ''', cid='write_comment.contract'),
         ins(A.body_start(), '''
@@ -114,7 +114,7 @@ def comments_edits():
         rep(A.text('&mut dyn Write'), '&mut WriteSink', tag='T7'),
         ins(A.ret(), '(r: ', where='before'), ins(A.ret(), ')', where='after'),
         ins(A.sig(), '''
-        ensures /*C15*/ r is Ok ==> exists|t: Seq<char>| #[trigger] commented(t) && final(w)@ == old(w)@ + t,
+        ensures /*C15 C10*/ r is Ok ==> exists|t: Seq<char>| #[trigger] commented(t) && final(w)@ == old(w)@ + t,
 ''', cid='write_comments.contract'),
         rep(A.span('comments .iter()', '.try_for_each(|comment|'), TRY_HEAD, tag='T14b',
             note='iter().try_for_each(|c| F(c)) is the loop that runs F(c) and returns the first Err (std); F stays verbatim'),
